@@ -124,6 +124,8 @@ pub enum Item {
     Fin(DErr),
     /// reset() returned n
     Reset(usize),
+    /// usability probe: empty string = the probe frame was delivered exactly
+    Probe(String),
     /// a parsed file (reader target `File`), as a reference tree
     File(crate::smlref::RFile),
     /// parser error (reader target `File`)
